@@ -2,5 +2,6 @@ SPECIFICATION Spec
 CONSTANTS L = 3
  CLASSES = {"val", "id", "pre", "suf", "bin", "pair", "comma", "cond", "else", "open", "close", "nopen", "nclose", "sopen", "sclose", "sep", "blankline", "term"}
  SEPS = {"blank", "none", "annot"}
+ BALANCED = FALSE
 INVARIANT Emit
 CHECK_DEADLOCK FALSE
